@@ -225,10 +225,17 @@ func (e *e2e) positives(thorough bool) {
 	run := func(j job) {
 		cl := e.client()
 		sp := j.sp
-		put := func(key string, frags []int) *s3c.Resp {
-			return cl.Do(&s3c.Req{Method: "PUT", Path: s3c.ObjPath(bkt, key), Body: sp.pay, Stream: sp.stream(), Fragments: frags})
+		// one upload in three also carries a (true) Content-MD5 of the payload: the other readers stacked around the
+		// decoder must see the decoded payload, whatever the chunking and the fragmentation
+		var company s3c.H
+		companyCls := "alone"
+		if newPrng(e.base, "company/"+j.id).intn(3) == 0 {
+			company, companyCls = s3c.H{{"Content-MD5", s3c.MD5B64(sp.pay)}}, "with-content-md5"
 		}
-		detail := map[string]any{"mode": sp.mode, "algo": sp.algo, "payload_len": len(sp.pay), "chunk_sizes": head(sp.chunkLens(), 12), "body_len": j.lay.n,
+		put := func(key string, frags []int) *s3c.Resp {
+			return cl.Do(&s3c.Req{Method: "PUT", Path: s3c.ObjPath(bkt, key), Body: sp.pay, Stream: sp.stream(), Fragments: frags, Header: company})
+		}
+		detail := map[string]any{"accompanying_headers": companyCls,"mode": sp.mode, "algo": sp.algo, "payload_len": len(sp.pay), "chunk_sizes": head(sp.chunkLens(), 12), "body_len": j.lay.n,
 			"socket_writes": j.plan.name, "write_sizes": head(j.plan.frags, 12), "intended_boundaries": head(j.plan.cuts, 12)}
 		r := put(j.key, j.plan.frags)
 		c.Eval(1)
@@ -248,7 +255,7 @@ func (e *e2e) positives(thorough bool) {
 		if rdr == "signed" && cls != "nonfirst-header-straddle" && j.lay.n > 3000 {
 			refusedCls = "uncontrolled-read-boundaries"
 		}
-		c.Distinct("B|pos|" + sp.mode + "|" + sp.algo + "|" + sp.seqCls + "|" + planClass(j.plan.name))
+		c.Distinct("B|pos|" + sp.mode + "|" + sp.algo + "|" + sp.seqCls + "|" + planClass(j.plan.name) + "|" + companyCls)
 		detail["put"] = r.String()
 		if r.OK() {
 			g := cl.GetObject(bkt, j.key)
